@@ -200,6 +200,10 @@ type Spelling struct {
 	// comma behind it and at the end of a line that has no annotation
 	// (alignment with tabs, trailing blanks).
 	Blank string
+	// Inner, when not "", is the blank INSIDE annotations: between the opening mark (// or /*) and the
+	// rule object or note, in front of the closing */, and as the indentation of the body line of the
+	// three-line form. "-" stands for no blank at all. Default: one space (none in the three-line form).
+	Inner string `json:",omitempty"`
 }
 
 var Canonical = Spelling{EOL: "\n", Indent: "  "}
@@ -256,14 +260,22 @@ func (r *renderer) annotation(n *Node) string {
 	} else {
 		body = n.Note
 	}
+	in, inOwn := " ", ""
+	switch r.sp.Inner {
+	case "":
+	case "-":
+		in, inOwn = "", ""
+	default:
+		in, inOwn = r.sp.Inner, r.sp.Inner
+	}
 	var s string
 	switch r.sp.MultiLine {
 	case 0:
-		s = r.blank() + "// " + body
+		s = r.blank() + "//" + in + body
 	case 1:
-		s = r.blank() + "/* " + body + " */"
+		s = r.blank() + "/*" + in + body + in + "*/"
 	default:
-		s = r.blank() + "/*" + r.sp.EOL + body + r.sp.EOL + "*/"
+		s = r.blank() + "/*" + r.sp.EOL + inOwn + body + r.sp.EOL + inOwn + "*/"
 	}
 	if r.sp.Comments == 1 {
 		// a user comment may follow an annotation of either form (after an inline
